@@ -32,9 +32,11 @@ type Set struct {
 	Notes    []string
 }
 
-func (s *Set) Add(o Obligation)                     { s.Obls = append(s.Obls, o) }
-func (s *Set) Problem(f string, a ...interface{})   { s.Problems = append(s.Problems, fmt.Sprintf(f, a...)) }
-func (s *Set) Note(f string, a ...interface{})      { s.Notes = append(s.Notes, fmt.Sprintf(f, a...)) }
+func (s *Set) Add(o Obligation) { s.Obls = append(s.Obls, o) }
+func (s *Set) Problem(f string, a ...interface{}) {
+	s.Problems = append(s.Problems, fmt.Sprintf(f, a...))
+}
+func (s *Set) Note(f string, a ...interface{}) { s.Notes = append(s.Notes, fmt.Sprintf(f, a...)) }
 func (s *Set) Merge(o *Set) {
 	s.Obls = append(s.Obls, o.Obls...)
 	s.Problems = append(s.Problems, o.Problems...)
@@ -93,18 +95,18 @@ type Floor struct {
 
 // Outcome of a property check.
 type Outcome struct {
-	Property   string
-	Tier       string
-	Level      string
-	Set        *Set
-	Violations []Obligation
-	KnownHits  []Obligation
-	Stale      []string
-	FloorFails []string
-	Canary     []string // canary failures
-	Start      time.Time
-	Extra      map[string]interface{}
-	Samples    []interface{}
+	Property    string
+	Tier        string
+	Level       string
+	Set         *Set
+	Violations  []Obligation
+	KnownHits   []Obligation
+	Stale       []string
+	FloorFails  []string
+	Canary      []string // canary failures
+	Start       time.Time
+	Extra       map[string]interface{}
+	Samples     []interface{}
 	Assumptions []string
 	Explanation string
 	TrustedBase []string
